@@ -26,6 +26,17 @@ impl InstructionGenerator {
         pos: Position,
     ) {
         let (name, args) = built_in_sub_call.into();
+        if name == BuiltInSub::Read && args.len() > 1 {
+            // every variable gets its value before the next item is read:
+            // if the data runs out, the variables before the failing one keep what they got
+            for arg in args {
+                self.generate_built_in_sub_call_instructions(
+                    BuiltInSubCall::new(name, vec![arg]),
+                    pos,
+                );
+            }
+            return;
+        }
         self.generate_push_unnamed_args_instructions(&args, pos);
         self.push(Instruction::PushStack, pos);
         self.push(Instruction::BuiltInSub(name), pos);
